@@ -33,9 +33,11 @@ pub struct WordCfg {
 }
 
 pub fn word_cfgs(rng: &mut Rng) -> Vec<WordCfg> {
-  let customs = ["my-ignore-file", "x-ignore", "deno-lint-ignore-file", "deno-lint-ignore", "lint-skip", "skip-file"];
-  let cf = customs[rng.below(3)];
-  let cl = customs[3 + rng.below(3)];
+  // (custom words may be any text without white space, also non-ASCII; the first character stays ASCII so that the
+  // same-length "neutralised" variant of a directive can be formed)
+  let customs = ["my-ignore-file", "x-ignore", "deno-lint-ignore-file", "fichier-ignoré", "deno-lint-ignore", "lint-skip", "skip-file", "x-игнор"];
+  let cf = customs[rng.below(4)];
+  let cl = customs[4 + rng.below(4)];
   let v = vec![
     WordCfg { words: Words { file: None, line: None }, file_word: "deno-lint-ignore-file".into(), line_word: "deno-lint-ignore".into(), decoys: vec![], name: "default/default" },
     WordCfg { words: Words { file: Some(leak(cf)), line: None }, file_word: cf.into(), line_word: "deno-lint-ignore".into(), decoys: vec!["deno-lint-ignore-file".into()], name: "custom/default" },
@@ -132,6 +134,29 @@ pub fn run_case(out: &mut Out, case_no: usize, wc: &WordCfg, df: &DirFile, codes
     }
   };
   let spy = log.lock().unwrap().clone();
+  // the same linter instance is used again with an external linter that declares other codes (or none, or declines),
+  // then once more as before: what an earlier call declared must not carry over (both directions)
+  if case_no % 2 == 0 {
+    let other: Option<deno_lint::linter::ExternalLinterCb> = match &ext {
+      Some(e) if case_no % 4 == 0 => Some(ext_cb(Some(ExtSpec { diags: vec![], codes: e.codes.iter().rev().skip(1).cloned().chain(std::iter::once("ext-other".to_string())).collect() }))),
+      Some(_) => Some(ext_cb(None)),
+      None => Some(ext_cb(Some(ExtSpec { diags: vec![], codes: EXT_CODES.iter().map(|c| c.to_string()).collect() }))),
+    };
+    // (a) on the instance that has already seen this call, (b) on a second instance that sees the other declarations first
+    let _ = lint_with(&linter, &df.src, extn, &Cfg::default(), other.clone());
+    let second = mk_linter(rules_by_codes(codes), &wc.words);
+    let _ = lint_with(&second, &df.src, extn, &Cfg::default(), other);
+    let results = [lint_with(&linter, &df.src, extn, &Cfg::default(), cb.clone()), lint_with(&second, &df.src, extn, &Cfg::default(), cb.clone())];
+    for again in results.into_iter().filter_map(|r| if let Outcome::Ok(d) = r { Some(d) } else { None }) {
+      if again != final_ds {
+        let only_first: Vec<_> = final_ds.iter().filter(|d| !again.contains(d)).map(|d| d.json()).collect();
+        let only_again: Vec<_> = again.iter().filter(|d| !final_ds.contains(d)).map(|d| d.json()).collect();
+        out.found("C16", "external-declarations-carry-over-between-calls", &df.src, json!({"meta": meta, "only_first_call": only_first, "only_after_other_declarations": only_again}));
+        out.found("C02", "history-dependent:external-declarations", &df.src, json!({"meta": meta, "only_first_call": only_first, "only_after_other_declarations": only_again}));
+        break;
+      }
+    }
+  }
   let key = format!("{}|{}|{}", wc.name, codes.join(","), df.src);
 
   // ---------------- model requests -----------------------------------------------------------
